@@ -3,6 +3,7 @@ C16 — Calibration coefficients are a pure function of spacecraft, overrides an
 -/
 import PygacModel.Model.Coeffs
 import PygacModel.Generated.CoeffKeys
+import PygacModel.Spec.SpacecraftIds
 namespace PygacModel.C16
 open PygacModel
 
@@ -220,6 +221,11 @@ theorem complete_sets :
     ∀ name ∈ Generated.readerSpacecraftNames,
       ∃ e ∈ Generated.coeffKeyTable, e.1 = name ∧ ∀ k ∈ Generated.requiredCoeffKeys, k ∈ e.2 := by
   decide +kernel
+
+/-- **The spacecraft a file's header id stands for**: the readers' id tables (regenerated from the source) equal the
+hand-written snapshot of the user's guides' id tables - so the coefficient set USED for a file of spacecraft X is looked
+up under X's name (a swapped pair of ids would calibrate MetOp-A with MetOp-B's set without any error) -/
+theorem spacecraft_ids_eq_spec : Generated.spacecraftIdTable = Spec.spacecraftIds := by decide +kernel
 
 /-- no object of the shipped file writes a key twice (the parser would keep the last one and drop the other silently, so
 that a mistyped key - `d3` for `d4` - would pass for a complete set) -/
